@@ -5,6 +5,7 @@ from .. import core
 RULE = ('all digraphs with self-loops on 1..3 nodes exhaustively (quick) / on 4 nodes exhaustively (thorough; quick: seeded '
         'sample), each realised as a function-block instance graph and as a type graph (out-degree-1 nodes as alias or '
         'structure, both), declarations in random order; plus random graphs up to 12 nodes, diamonds and chains of depth 200; '
+        'graphs of out-degree <= 1 also as enumeration alias chains used by several variables (P0010 or P0013); '
         'analyze() on the text; oracle: P0010 in codes <=> the reference graph has a cycle (independent DFS), '
         'correspondence: the Lean model `rejectsRecursive`; non-trivial = at least one edge; distinct = distinct '
         '(realisation, node count, edge set)')
@@ -56,6 +57,31 @@ def realise_type(n, edges, rng, alias_pref):
     return 'TYPE\n' + ''.join(decls[i] for i in order) + 'END_TYPE\n', [model[i] for i in order]
 
 
+def realise_enum(n, edges, rng):
+    """out-degree <= 1 graphs as enumeration alias chains: a node without successor is an enumeration, a node with one
+    is an alias of its successor; a function block then uses every type for several variables (with and without an
+    initial value, in random order) so that the alias chains are walked repeatedly"""
+    decls = []
+    for i in range(n):
+        outs = [b for a, b in edges if a == i]
+        decls.append(f'  T{i} : T{outs[0]};\n' if outs else f'  T{i} : (A{i}, B{i}) := A{i};\n')
+    order = list(range(n)); rng.shuffle(order)
+    def root(i):
+        seen = set()
+        while True:
+            outs = [b for a, b in edges if a == i]
+            if not outs: return i
+            if i in seen: return None
+            seen.add(i); i = outs[0]
+    uses = []
+    for k in range(2 * n + 1):
+        i = rng.randrange(n)
+        r = root(i)
+        init = f' := {rng.choice("AB")}{r}' if r is not None and rng.random() < 0.6 else ''
+        uses.append(f'    u{k} : T{i}{init};\n')
+    return 'TYPE\n' + ''.join(decls[i] for i in order) + 'END_TYPE\nFUNCTION_BLOCK FBU\n  VAR\n' + ''.join(uses) + '  END_VAR\nEND_FUNCTION_BLOCK\n'
+
+
 def graphs(ctx):
     rng = ctx.rng
     out = []
@@ -100,8 +126,14 @@ def run(ctx):
             if pref is not True and not any(sum(1 for a, _ in edges if a == i) == 1 for i in range(n)): continue
             t, m = realise_type(n, edges, rng, pref)
             cases.append({'n': n, 'edges': edges, 'kind': kind, 'real': {True: 'type-alias', False: 'type-struct', 'mixed': 'type-mixed'}[pref], 'text': t, 'model': m})
+    for n, edges, kind in graphs(ctx):
+        if n <= 8 and all(sum(1 for a, _ in edges if a == i) <= 1 for i in range(n)) and (kind != 'random' or n <= 8):
+            cases.append({'n': n, 'edges': edges, 'kind': kind, 'real': 'enum-alias', 'text': realise_enum(n, edges, rng), 'model': None})
+    for depth in (5, 30):
+        ch = [(i, i + 1) for i in range(depth - 1)]
+        cases.append({'n': depth, 'edges': ch, 'kind': 'chain', 'real': 'enum-alias', 'text': realise_enum(depth, ch, rng), 'model': None})
     impl = core.run_lines(core.VH, ['analyze ' + core.hexs(c['text']) for c in cases], jobs=12)
-    model = core.run_lines(core.PLCDRV, ['c07 ' + ' '.join(c['model']) for c in cases], jobs=12) if ctx.model_available else [None] * len(cases)
+    model = core.run_lines(core.PLCDRV, ['c07 ' + ' '.join(c['model']) if c['model'] is not None else 'noop' for c in cases], jobs=12) if ctx.model_available else [None] * len(cases)
     for c, io, mo in zip(cases, impl, model):
         ctx.evaluations += 1
         ctx.count(f"{c['real']}:{c['kind']}")
@@ -113,7 +145,16 @@ def run(ctx):
         if io.startswith('PANIC') or io.startswith('DIED') or io.startswith('ERR PARSE'):
             ctx.violations.append({'stream': 'graph', 'case': show, 'what': f'analyze did not produce a verdict: {io[:120]}', 'impl': io, 'model': mo})
             continue
-        got = 'P0010' in [d.split('@')[0] for d in io.split()[1:]]
+        codes = [d.split('@')[0] for d in io.split()[1:]]
+        got = 'P0010' in codes
+        if c['real'] == 'enum-alias':
+            # enumeration chains: the recursion may also be reported by the enumeration rule (P0013)
+            got = got or 'P0013' in codes
+            if got != cyc:
+                ctx.violations.append({'stream': 'graph', 'case': show, 'impl': io, 'model': None,
+                                       'what': ('cyclic enumeration alias chain not rejected as recursive (neither P0010 nor P0013)' if cyc
+                                                else f'acyclic enumeration alias chain rejected as recursive ({[x for x in codes if x in ("P0010", "P0013")]})')})
+            continue
         if mo is not None:
             ctx.traces += 1
             if (mo == 'P0010') != got:
